@@ -101,3 +101,4 @@ Example one_round_is_not_enough :
   let r1 := fst (round ex_present ex_explicit ex_callees [2; 1; 0; 3] ex_s0) in
   map r1 [1; 2] = [SC_RECV; SC_FETCH].
 Proof. vm_compute. reflexivity. Qed.
+
